@@ -193,7 +193,8 @@ func body(c cfg, r *run) func(*vsched.Exec) {
 		r.checkQuiescent("after submissions", mock.Now(), false)
 		for t := 0; t < c.Ticks; t++ {
 			before, _, _ := ccp.VerifDump()
-			if c.Peek && t == 0 {
+			if c.Peek {
+				// a Peek racing with every refresh tick (it stamps the entry's last access without a lock)
 				vsched.GoNamed("peeker2", func() { peek("tick") })
 			}
 			if c.Emit {
